@@ -189,6 +189,22 @@ impl Scn2 {
                 if rng.chance(85) {
                     plan.push_back(Planned::SetVersion);
                 }
+                // now and then a large book: a long run of current-format bids with a few legacy ones among them
+                // (page-size / batch-size effects in the conversion only show beyond some dozens of records)
+                if rng.chance(6) {
+                    let n_cur = rng.range(52, 110) as u64;
+                    let n_leg = rng.range(1, 3);
+                    let mut at: Vec<u64> = (0..n_leg).map(|_| rng.below(n_cur)).collect();
+                    at.sort();
+                    for i in 0..n_cur {
+                        while at.first() == Some(&i) {
+                            plan.push_back(Planned::PutLegacy);
+                            at.remove(0);
+                        }
+                        plan.push_back(Planned::PutCurrentBid);
+                    }
+                    plan.push_back(Planned::PutLegacy);
+                }
                 let n = rng.range(2, 5);
                 for _ in 0..n {
                     plan.push_back(match rng.below(11) {
@@ -330,6 +346,11 @@ impl Scn2 {
         self.header.clone()
     }
 
+    /// number of steps planned ahead at generation time (state seeding)
+    pub fn planned_len(&self) -> usize {
+        self.plan.len()
+    }
+
     pub fn default_steps(p: P2) -> usize {
         match p {
             P2::Migration => 14,
@@ -446,6 +467,42 @@ impl Scn2 {
 
     fn size(&self, rng: &mut Rng) -> u128 {
         self.increment * rng.range(1, 5)
+    }
+
+    /// lower-case hex digits of an id (what all spellings of one uuid share)
+    fn hex_of(id: &str) -> String {
+        id.chars().filter(|c| c.is_ascii_hexdigit()).collect::<String>().to_lowercase()
+    }
+
+    /// Now and then (6 %, 25 % for a legacy key) another spelling of the same uuid than the one the order is filed under:
+    /// other letter case, un-hyphenated for a hyphenated id, hyphenated for a legacy un-hyphenated one.
+    /// The contract looks orders up by the exact string, so such a request names no order.
+    fn alt_id(&self, rng: &mut Rng, id: &str) -> String {
+        // a legacy (un-hyphenated) key more often: clients of the current version send the canonical spelling
+        let pct = if id.contains('-') { 6 } else { 25 };
+        if !rng.chance(pct) || !id.is_ascii() {
+            return id.to_string();
+        }
+        let hex = Self::hex_of(id);
+        if hex.len() != 32 {
+            return id.to_uppercase();
+        }
+        let hyph = format!("{}-{}-{}-{}-{}", &hex[0..8], &hex[8..12], &hex[12..16], &hex[16..20], &hex[20..32]);
+        let other = if id.contains('-') { hex.clone() } else { hyph };
+        match rng.below(4) {
+            0 => if id.to_uppercase() != id { id.to_uppercase() } else { id.to_lowercase() },
+            1 | 2 => other,
+            _ => other.to_uppercase(),
+        }
+    }
+
+    /// owner of another order on the same side filed under another spelling of the same uuid
+    fn twin_owner<'a>(id: &str, same_side: impl Iterator<Item = (&'a str, &'a str)>) -> Option<String> {
+        let hex = Self::hex_of(id);
+        same_side
+            .filter(|(i, _)| *i != id && Self::hex_of(i) == hex)
+            .map(|(_, o)| o.to_string())
+            .next()
     }
 
     fn mutate_id(&self, rng: &mut Rng, id: &str, same_side_ids: &[String]) -> String {
@@ -657,12 +714,19 @@ impl Scn2 {
             match rng.below(3) {
                 0 => size += 1,
                 1 => size = size.saturating_sub(1).max(1),
-                _ => base = rng.pick(&["con", "usd", "xyz"]).to_string(),
+                _ => {
+                    // another denomination: one of the market's convertibles (the ask's own among them), a quote, an unknown one
+                    base = if !self.convertibles.is_empty() && rng.chance(50) {
+                        rng.pick(&self.convertibles).clone()
+                    } else {
+                        rng.pick(&["con", "usd", "xyz"]).to_string()
+                    }
+                }
             }
         }
         let funds = if rng.chance(6) { self.mutate_funds(rng, &base, size) } else { self.funds(&base, size) };
         json!({
-            "execute": {"approve_ask": {"id": ask.id, "base": base, "size": size.to_string()}},
+            "execute": {"approve_ask": {"id": self.alt_id(rng, &ask.id), "base": base, "size": size.to_string()}},
             "sender": self.sender(rng, &right),
             "funds": funds,
         })
@@ -728,7 +792,7 @@ impl Scn2 {
         } else if rng.chance(3) && !self.used_ids.is_empty() {
             (ask.id.clone(), rng.pick(&self.used_ids).clone())
         } else {
-            (ask.id.clone(), bid.id.clone())
+            (self.alt_id(rng, &ask.id), self.alt_id(rng, &bid.id))
         };
         let right = self.executor(rng, ci);
         let funds = if rng.chance(3) { json!([{"denom": "usd", "amount": "1"}]) } else { json!([]) };
@@ -1152,7 +1216,8 @@ impl Scn2 {
                     7 => Some(rng.range(0, ask.size)),
                     _ => None,
                 };
-                exec_step(self, rng, &exec, json!({"reject_ask": {"id": ask.id, "size": size.map(|s| s.to_string())}}))
+                let named = self.alt_id(rng, &ask.id);
+                exec_step(self, rng, &exec, json!({"reject_ask": {"id": named, "size": size.map(|s| s.to_string())}}))
             }
             2 => {
                 let bid = rng.pick(&bids);
@@ -1164,28 +1229,40 @@ impl Scn2 {
                     7 => Some(rng.range(0, rem)),
                     _ => None,
                 };
-                exec_step(self, rng, &exec, json!({"reject_bid": {"id": bid.id, "size": size.map(|s| s.to_string())}}))
+                let named = self.alt_id(rng, &bid.id);
+                exec_step(self, rng, &exec, json!({"reject_bid": {"id": named, "size": size.map(|s| s.to_string())}}))
             }
             3 => {
                 let ask = rng.pick(&asks);
-                exec_step(self, rng, &exec, json!({"expire_ask": {"id": ask.id}}))
+                let named = self.alt_id(rng, &ask.id);
+                exec_step(self, rng, &exec, json!({"expire_ask": {"id": named}}))
             }
             4 => {
                 let bid = rng.pick(&bids);
-                exec_step(self, rng, &exec, json!({"expire_bid": {"id": bid.id}}))
+                let named = self.alt_id(rng, &bid.id);
+                exec_step(self, rng, &exec, json!({"expire_bid": {"id": named}}))
             }
             5 => {
                 let ask = rng.pick(&asks);
                 let right = ask.owner.to_string();
                 // in the auth profile the "wrong" sender is often one holding another role
-                let s = if self.profile == P2::Auth && rng.chance(30) { exec.clone() } else { right };
-                exec_step(self, rng, &s, json!({"cancel_ask": {"id": ask.id}}))
+                let mut s = if self.profile == P2::Auth && rng.chance(30) { exec.clone() } else { right };
+                // ... or the owner of an order filed under another spelling of the same uuid
+                if let Some(t) = Self::twin_owner(&ask.id, asks.iter().map(|a| (a.id.as_str(), a.owner.as_str()))) {
+                    if rng.chance(50) { s = t; }
+                }
+                let named = self.alt_id(rng, &ask.id);
+                exec_step(self, rng, &s, json!({"cancel_ask": {"id": named}}))
             }
             6 => {
                 let bid = rng.pick(&bids);
                 let right = bid.owner.to_string();
-                let s = if self.profile == P2::Auth && rng.chance(30) { exec.clone() } else { right };
-                exec_step(self, rng, &s, json!({"cancel_bid": {"id": bid.id}}))
+                let mut s = if self.profile == P2::Auth && rng.chance(30) { exec.clone() } else { right };
+                if let Some(t) = Self::twin_owner(&bid.id, bids.iter().map(|b| (b.id.as_str(), b.owner.as_str()))) {
+                    if rng.chance(50) { s = t; }
+                }
+                let named = self.alt_id(rng, &bid.id);
+                exec_step(self, rng, &s, json!({"cancel_bid": {"id": named}}))
             }
             7 => self.modify(rng, &ci),
             8 => self.create_ask(rng, &asks),
